@@ -138,6 +138,15 @@ def build(node, env=None, path='r'):
     if op == 'boom':
         return done(ds.map(env.fn(path, functools.partial(progs.f_boom, node['m'], node['r'], node['exc'],
                                                           node['fn']))))
+    if op == 'mapc':
+        def comp(v, fns=tuple(node['fns'])):
+            for i in fns:
+                v = progs.f_wrap(i, v)
+            return v
+        return done(ds.map(env.fn(path, comp)))
+    if op == 'filter_in':
+        allowed = set(node['reprs'])
+        return done(ds.filter(env.fn(path, lambda x: repr(x) in allowed)))
     if op == 'boomset':
         return done(ds.map(env.fn(path, functools.partial(progs.f_boomset, node['fail'], node['fn']))))
     if op == 'predraise':
@@ -160,6 +169,10 @@ def build(node, env=None, path='r'):
             kw['sort_fn'] = lambda it, reverse=False: sorted(list(it), reverse=reverse)
         if node['key'] is None:
             return done(ds.sort(reverse=node['reverse'], **kw))
+        if node.get('wrap') is not None:
+            w = node['wrap']
+            return done(ds.sort(env.fn(path, lambda x: progs.f_key(node['key'], progs.f_wrap(w, x))),
+                                reverse=node['reverse'], **kw))
         return done(ds.sort(env.fn(path, functools.partial(progs.f_key, node['key'])), reverse=node['reverse'],
                             **kw))
     if op == 'shard':
@@ -173,7 +186,12 @@ def build(node, env=None, path='r'):
     if op == 'items':
         return done(ds.items())
     if op == 'tile':
+        if node.get('shuffle'):
+            return done(ds.tile(node['r'], shuffle=True))  # global numpy RNG: the caller seeds it
         return done(ds.tile(node['r']))
+    if op == 'concat_shuffled':
+        parts = [ds.shuffle() for _ in range(node['r'])]
+        return done(parts[0] if len(parts) == 1 else lazy_dataset.concatenate(*parts))
     if op == 'cache':
         return done(ds.cache(lazy=node['lazy']))
     if op == 'catch':
